@@ -102,7 +102,7 @@ class FuncOrder:
     def loop_order(self, loop, depth=0):
         return self.order(loop.iter, loop, depth + 1)
 
-    def append_order(self, name, at):
+    def append_order(self, name, at, depth=0):
         """order of a list that is only filled by .append/.extend inside loops: the order of the outermost loop"""
         apps = []
         for n in A.walk_local(self.fn, include_self=False):
@@ -124,7 +124,7 @@ class FuncOrder:
                     return None
             if loop is None:
                 return None
-            orders.add(self.loop_order(loop))
+            orders.add(self.loop_order(loop, depth + 1))
         if len(orders) == 1:
             return orders.pop()
         return None
@@ -143,7 +143,7 @@ class FuncOrder:
             for st, v, k in ds:
                 if k == "assign":
                     if isinstance(v, (ast.List, ast.Tuple)) and not v.elts:
-                        res.add(self.append_order(e.id, at))
+                        res.add(self.append_order(e.id, at, depth + 1))
                     else:
                         res.add(self.order(v, st, depth + 1))
                 elif k == "unpack":
